@@ -551,18 +551,26 @@ func isDigitRunSkipSafe(re *syntax.Regexp) bool {
 	case syntax.OpPlus, syntax.OpStar:
 		// + or * on a digit class: greedy unbounded → safe to skip
 		if len(re.Sub) == 1 && re.Sub[0].Op == syntax.OpCharClass {
-			return isDigitOnlyClass(re.Sub[0].Rune)
+			return isAllDigitsClass(re.Sub[0].Rune)
 		}
 		return false
 	case syntax.OpRepeat:
 		// {N,} with no upper bound (Max == -1): greedy unbounded → safe
 		if re.Max == -1 && len(re.Sub) == 1 && re.Sub[0].Op == syntax.OpCharClass {
-			return isDigitOnlyClass(re.Sub[0].Rune)
+			return isAllDigitsClass(re.Sub[0].Rune)
 		}
 		return false
 	default:
 		return false
 	}
+}
+
+// isAllDigitsClass reports whether the class is exactly [0-9]. The run skip
+// jumps over a whole [0-9] run, which is only sound when every digit belongs to
+// the leading class: with [0-5]+\.[a-z] on "6123.a" the match starts at the
+// second byte of the run.
+func isAllDigitsClass(runes []rune) bool {
+	return len(runes) == 2 && runes[0] == '0' && runes[1] == '9'
 }
 
 // isSafeForReverseSuffix checks if a pattern is safe for UseReverseSuffix strategy.
